@@ -12,3 +12,6 @@ func SetPoint(f func(id int))                   {}
 func SetMapOrder(f func(site, n int) []int)     {}
 func SetLoopState(f func(render func() string)) {}
 func Snapshot(p *bluemonday.Policy) string      { return "" }
+
+func SnapshotPolicy(p *bluemonday.Policy) string { return "" }
+func SnapshotGlobals() string                    { return "" }
